@@ -8,6 +8,7 @@ CONSTANTS
   Kinds = {1, 2}
   RestartResizes = TRUE
   AnonModes = {FALSE}
+  Faults = TRUE
   AllowWindow = TRUE
   EmitEdges = FALSE
 INVARIANTS TypeOK Ordered NothingLost PayloadPreserved SearchAll PagingPartitions WindowPaging NoParameterCrashes LastReplyOK
